@@ -1,6 +1,7 @@
 import NemoVerif.Drive.Common
 import NemoVerif.Models.CoreIndex
 import NemoVerif.Drive.CoreVMJson
+import NemoVerif.Models.RefName
 
 namespace NemoVerif.Drive.C09
 open Lean NemoVerif NemoVerif.Drive NemoVerif.CoreIndex
@@ -61,6 +62,37 @@ def stateToJson (s : IState) (bad : List Nat) : Json :=
       Json.arr (i.heads.map fun h => Json.arr #[.str h.uid, Json.num (JsonNumber.fromNat h.pos), .str (headStatusToString h.status),
         match h.elem with | none => .null | some n => .str n]).toArray]).toArray)]
 
+/-- a context value as the name computation sees it: `{"k":"action","n":"FooAction","a":{"attr":obj,…}}`, `{"k":"flow"}`,
+    `{"k":"event","n":"StartFooAction","a":{"action":{…}}}`, `{"k":"dict","a":{…}}`, `{"k":"other"}` -/
+partial def objOfJson (j : Json) : Except String RefName.Obj := do
+  let k ← (← j.getObjVal? "k").getStr?
+  let n := match j.getObjVal? "n" with | .ok (.str s) => s | _ => ""
+  let attrs ← match j.getObjVal? "a" with
+    | .ok (.obj kvs) => kvs.toList.mapM fun (a, v) => do pure (a, ← objOfJson v)
+    | _ => pure []
+  let kind ← match k with
+    | "action" => pure (RefName.Kind.action n)
+    | "flow" => pure RefName.Kind.flow
+    | "event" => pure (RefName.Kind.event n)
+    | "dict" => pure RefName.Kind.dict
+    | "other" => pure RefName.Kind.other
+    | s => throw s!"bad object kind {s}"
+  pure (.mk kind attrs)
+
+/-- one registration on a reference match: `{"var":"ref","members":["Finished"]|null,"obj":obj|null}` (`obj` null = the
+    variable is not in the context) -> `{"ok":name}` / `{"err":exception class}` computed by `RefName.nameOf` -/
+def refnameOne (j : Json) : Except String Json := do
+  let v ← (← j.getObjVal? "var").getStr?
+  let members ← match j.getObjVal? "members" with
+    | .ok (.arr ms) => do pure (some (← ms.toList.mapM fun m => m.getStr?))
+    | _ => pure none
+  let ctx ← match j.getObjVal? "obj" with
+    | .ok .null | .error _ => pure []
+    | .ok o => do pure [(v, ← objOfJson o)]
+  match RefName.nameOf ctx { var := v, members := members } with
+  | .ok nm => pure (Json.mkObj [("ok", .str nm)])
+  | .error e => pure (Json.mkObj [("err", .str e.cls)])
+
 /-- `{"m":"C09.replay","segments":[[op,…],[op,…],…]}`: the operations recorded between two observation
     points (one segment per external event); answers with the model state after every segment. -/
 def handle (op : String) (j : Json) : Except String Json := do
@@ -76,6 +108,9 @@ def handle (op : String) (j : Json) : Except String Json := do
       outs := outs.push (stateToJson s bad)
     pure (Json.arr outs)
   | "run" => CoreVMJson.runProgram j
+  | "refname" =>
+    let items ← (← j.getObjVal? "items").getArr?
+    pure (Json.arr (← items.mapM refnameOne))
   | _ => throw s!"unknown op C09.{op}"
 
 end NemoVerif.Drive.C09
